@@ -16,6 +16,11 @@ _c13 = importlib.util.module_from_spec(_spec); _spec.loader.exec_module(_c13)
 # grammar augmentation by the search (alternate pronunciations) must keep arcs between the same states: shared with C13
 GROUPS += [dict(g) for g in _c13.GROUPS if g["name"].startswith("add_alt_2_")]
 ENFORCED_ELSEWHERE = {}
+NATIVE = [
+    dict(name="e2e_invariants", source="native/e2e_invariants.c", repo_sources="ALL_EXCEPT:", cflags=["-w", "-fsanitize=address"],
+         args={"quick": ["C01"], "thorough": ["C01"]}, exhaustive=False,
+         bound="end-to-end invariants of this property on ~12 real decodes (bundled en-us / fr-fr models; goforward recordings with JSGF grammar, FSG file and forced-alignment text; one call, 2048-sample blocks with partial results, float32; digital silence; white noise) under AddressSanitizer -- a safety net under the contracts, not a proof"),
+]
 ASSUMPTIONS = [
     "history table seen through the ghost-cell view (contracts/fsg_hist.ghost.h, producer side contracts/fsg_hist_prod.ghost.h): fsg_history_entry_get / fsg_history_n_entries are ASSUMED contracts; the element invariant (only entry 0 has no link, pred < id, frames >= -1, link.from_state == dest(entry(pred))) is what the producer side establishes. Producer side under contract: fsg_search_null_prop (the invariant is the precondition of fsg_history_entry_add, proved at its call site). NOT under contract: fsg_search_word_trans / pnode_trans / pnode_exit (word arcs through the lextree), fsg_history_entry_add / end_frame bodies",
     "arc iterator fsg_model_arcs / fsg_arciter_next / fsg_arciter_get: assumed contracts (yield links leaving the requested state, destination in range)",
@@ -30,5 +35,5 @@ HAND_LEMMAS = [
 NOT_COVERED = ["word-arc producers of the history invariant (fsg_search_word_trans / pnode_trans / pnode_exit, lextree construction)", "fsg_search_hyp string building and fsg_search_seg_iter backtrace loops (only their no-exit clause is under contract)", "decoder.c dispatch", "grammar augmentation beyond the bounded add_alt check (silence loops, closure)"]
 CLAIM = dict(
     text="Consumer side of 'results are sentences of the grammar': fsg_search_find_exit is proved, with loop invariants and termination, for history tables of any length: the entry it returns has a link, ends no later than the requested frame, carries the reported score and -- for a final result -- enters the grammar's final state; otherwise it returns <= 0. fsg_search_hyp is proved to return NULL and change nothing whenever no admissible exit exists. Producer side: fsg_search_null_prop is proved (two nested loop contracts, termination of the outer loop) to add only entries whose link leaves the state its predecessor entered, with the predecessor's frame and a null label -- the path-connectivity invariant as a precondition of fsg_history_entry_add. The word-arc producers (lextree transitions and exits) are NOT under contract, so for them the invariant is assumed. Grammar augmentation: alternate-pronunciation arcs added by fsg_model_add_alt join the same states as the base-word arc (bounded, 2-state grammar, real hash table).",
-    note="assumed: ghost-cell view of the history table and its element invariant (producer side not under contract), err_msg; not covered: hypothesis string building, lextree, decoder dispatch; trusted: CBMC 6.11",
-    technique="CBMC function + loop contracts enforced with goto-instrument --dfcc; universals via a ghost witness index; unbounded table via ghost cell")
+    note="assumed: ghost-cell view of the history table and its element invariant (producer side not under contract), err_msg; not covered: hypothesis string building, lextree, decoder dispatch; trusted: CBMC 6.11; end-to-end invariants on ~12 real decodes by a bounded native run (native/e2e_invariants.c), never counted as proved",
+    technique="CBMC function + loop contracts enforced with goto-instrument --dfcc; universals via a ghost witness index; unbounded table via ghost cell; plus a bounded native run of the property's end-to-end invariants on real decodes (safety net, not proof)")
